@@ -78,6 +78,7 @@ class OFolder(Folder):
         self.depth = depth
         self._level = 0
         self.hash_log = []
+        self.stack = []          # qualified names of the package functions being interpreted (innermost last)
         self.stubs = {}          # (module, function qualname) -> fn(args, kw)
         self.overrides = {}      # module name -> {global name: value} used when a function of that module is interpreted
         try:
@@ -126,10 +127,12 @@ class OFolder(Folder):
             env["__class__"] = (func.module.name, func.cls.name)
             env["__self__"] = self_obj
         self._level += 1
+        self.stack.append(getattr(func, "qualname", getattr(node, "name", "?")))
         try:
             outs = self._interp().run_function(node, env)
         finally:
             self._level -= 1
+            self.stack.pop()
         return self._single(outs, getattr(func, "qualname", getattr(node, "name", "?")))
 
     def _single(self, outs, what):
@@ -201,7 +204,7 @@ class OFolder(Folder):
             if v.payload is not None:
                 return bool(v.payload)
             return True
-        if isinstance(v, (BoundMethod, LocalFunc, ClassFunc, ClassRef, FuncRef)):
+        if isinstance(v, (BoundMethod, LocalFunc, ClassFunc, ClassRef, FuncRef, NativeFunc, NativeCM)):
             return True
         if v is NotImplemented:
             return True
@@ -451,7 +454,7 @@ class OFolder(Folder):
         if isinstance(f, LocalFunc):
             fake = _FakeFunc(f.node)
             return self._inline(fake, args, kw, closure_env=f.env)
-        if isinstance(f, FuncRef) and f.simple_return() is None:
+        if isinstance(f, FuncRef) and (f.simple_return() is None or f.mod in self.overrides):
             func = self.src.funcs.get((f.mod, f.name))
             if func is None:
                 raise Unknown("function %s not found" % f.name)
@@ -653,7 +656,11 @@ class ObjInterp(BlockEval):
         if getattr(f, "cls", None) is not None and args and isinstance(args[0], Obj):
             outs_env["__class__"] = (f.module.name, f.cls.name)
             outs_env["__self__"] = args[0]
-        outs = self.run_function(f.node, outs_env)
+        self.folder.stack.append(f.qualname)
+        try:
+            outs = self.run_function(f.node, outs_env)
+        finally:
+            self.folder.stack.pop()
         return outs
 
     def callm(self, obj, name, *args, **kw):
